@@ -192,6 +192,14 @@ func (worldS) Gen(r *core.Rand, env *core.Env) SCase {
 			flushes++
 		}
 	}
+	if c.ValMode == 2 && !c.Crash && codecLongRunsOn() && r.Intn(30) == 0 {
+		// long-run flavour (s_codec.go; off unless VERIF_C07_LONGRUN=1, see notes/leads.md L6): a segment size above 100000 rows and one float column of three very long runs
+		c.Knobs.RowsPerSegment = codecLongSeg
+		wid++
+		c.Ops = append(c.Ops, SOp{K: "w", ID: wid, Rows: genCodecLongRuns(r, &c, r.Intn(c.NMst))}, SOp{K: "flush"})
+		flushes++
+		nops = min(nops, 6)
+	}
 	if c.ValMode == 2 && r.Bool(map[bool]float64{false: 0.7, true: 0.3}[c.Crash]) {
 		// every column of one measurement filled over all time slots (one row in eight lacks a field), then flushed:
 		// each column pattern of the case meets blocks of every length the segment size allows, with and without nulls
